@@ -119,7 +119,7 @@ class StreamActor:
     async def run(self, *, task_status):
         names, flt = CONFIGS[self.cfg]
         signals = [getattr(self.other, "a") if nm == "oa" else getattr(self.src, nm) for nm in names]
-        filt = (lambda e: e.n % 2 == 0) if flt else None
+        filt = (lambda e: "even" if e.n % 2 == 0 else "") if flt else None  # passing = returning a TRUTHY value, not necessarily True
         try:
             with self.scope:
                 async with stream_events(signals, filt, max_queue_size=QSIZE[self.j]) as stream:
@@ -271,7 +271,7 @@ def _fn(a, tier, K):
                     we["started_at"] = n
 
                     async def waiter():
-                        we["result"] = await wait_event([src.a], lambda e: e.n % 2 == 1)
+                        we["result"] = await src.a.wait_event(lambda e: e.n % 2)  # the bound signal's shortcut, with a filter returning 1 / 0
                         we["task_done"] = True
 
                     tg.start_soon(waiter)
